@@ -222,6 +222,9 @@ def run(chk):
     for kk, (cl, var) in enumerate([(cl, var) for cl in ("interval", "triangle", "quadrilateral", "tetrahedron") for var in range(3 if quick else 6)]):
         items.append({"builder": "harness.corpus.realise_mixedmeta", "must_compile": True, "mm": {"cell": cl, "variant": var}, "seed": chk.seed * 13 + kk,
                       "scalar": "float64", "ninputs": 1, "geom": "affine", "label": f"mixedmeta/{cl}/v{var}"})
+    for kk, (cl, var) in enumerate([(cl, var) for cl in ("interval", "triangle", "quadrilateral", "tetrahedron") for var in ((0, 1) if not quick else ((0,) if cl in ("triangle", "interval") else (1,)))]):
+        items.append({"builder": "harness.corpus.realise_mixedmeta", "must_compile": True, "mm": {"cell": cl, "variant": var, "qe": True}, "seed": chk.seed * 13 + 40 + kk,
+                      "scalar": "float64", "ninputs": 1, "geom": "affine", "label": f"mixedmeta/{cl}/qe{var}"})
     # the vertex scheme on facets (weights are those of the facet, not of the cell)
     fcs = s5.enumerate_formspace(chk, facets=True)
     for i, c in enumerate(s5.sample_cases([c for c in fcs if c["rule"] == "vertex"], 5 if quick else 40, chk.seed + 8, max_cost=30)):
